@@ -102,10 +102,6 @@ def body_model(op):
     if op.get('imp'):
         inner, res, sub = fetch_model(op['fetcher'])
         parts.append('imp ( %s ) %s ( %s )' % (inner, res, sub))
-        if res in ('N', 'Ru1'):
-            # the sheet was not found: insertRule tries once more when the rule gets its parent sheet
-            # (cssstylesheet.py:885-887 `rule.href = rule.href`)
-            parts.append('imp ( %s ) %s ( %s )' % (inner, res, sub))
     parts.append(flags_steps(op['flags']))
     return ' '.join(p for p in parts if p)
 
@@ -528,6 +524,12 @@ def gen_oracle_history(rng, n, explicit=True, indent=False):
     """anything goes: modelled ops plus constructors / setters with malformed text in both modes"""
     ops = []
     base = gen_modelled_history(rng, n, indent_ok=indent)
+    if indent:
+        # the region of the known finding: the EXPERIMENTAL preference switched on early, style rules serialised after it
+        at = rng.randint(1, max(1, len(base) // 3))
+        base.insert(at, {'op': 'setIndent', 'v': 1})
+        for _ in range(4):
+            base.insert(rng.randint(at + 1, len(base)), {'op': 'serialize', 'rule': rng.choice(RULES)})
     for op in base:
         if not explicit and op['op'] in ('setMode', 'setPref', 'newSer', 'addProfile', 'removeProfile', 'setIndent'):
             continue
